@@ -366,7 +366,7 @@ class TemporalAdapter(H.Adapter):
     # ---- derived objects: snapshots and aggregation
     def extra_checks(self, h, model, U, step, ctx, final):
         if not final and step % 6 != 5:
-            return
+            return False
         recs = {k: v[0] for k, v in model.edges.items()}
         times = sorted({k[0] for k in recs})
         # snapshots, no window and two windows
@@ -398,7 +398,7 @@ class TemporalAdapter(H.Adapter):
             agg = h.aggregate(2)
             require(len(agg) == 0 or all(len(g.get_edges()) == 0 for g in agg.values()),
                     "aggregate() of a hypergraph without hyperedges contains hyperedges")
-            return
+            return True
         tmax = times[-1]
         for width in range(1, tmax + 3):
             agg = h.aggregate(width)
@@ -440,6 +440,7 @@ class TemporalAdapter(H.Adapter):
                 if repeat:
                     ctx.label("aggregate_window_with_repeat")
                     ctx.nontrivial()
+        return True
 
 
 ADAPTER = TemporalAdapter()
